@@ -1670,6 +1670,8 @@ class DesignSpace:
         self._variables[name].lower_bound = lower_bound
         self._add_norm_policy(name)
         self.__norm_data_is_computed = False
+        # The normalized current value depends on the bounds.
+        self.__clear_dependent_data()
 
     def set_upper_bound(
         self,
@@ -1690,6 +1692,8 @@ class DesignSpace:
         self._variables[name].upper_bound = upper_bound
         self._add_norm_policy(name)
         self.__norm_data_is_computed = False
+        # The normalized current value depends on the bounds.
+        self.__clear_dependent_data()
 
     def convert_array_to_dict(
         self,
@@ -2366,3 +2370,5 @@ class DesignSpace:
                     self._add_norm_policy(name)
 
             self.__norm_data_is_computed = False
+            # The normalized current value depends on the normalization policies.
+            self.__clear_dependent_data()
